@@ -125,6 +125,9 @@ func init() {
 	ops["sem.parse"] = func(e Ev) Ev {
 		in := fromB(e["in"])
 		v, err, p := semParse(str(e["fn"]), in, sem.Rule(num(e["rule"])), str(e["T"]))
+		for i := range reuseBuf[:cap(reuseBuf)][:len(in)] { // the caller reuses its buffer
+			reuseBuf[:cap(reuseBuf)][i] = '#'
+		}
 		e["panic"] = p
 		e["ok"] = err == nil && !p
 		e["v"] = verEv(v)
